@@ -119,12 +119,21 @@ def build_harness():
     _built = True
 
 
+def harness_env(args):
+    """Environment for a direct subprocess call of the harness binary (no process arguments)."""
+    e = dict(os.environ)
+    e["VERIF_ARGS"] = "\t".join(args)
+    return e
+
+
 def run_harness(args, timeout=1800, env=None):
     build_harness()
     e = dict(os.environ)
     if env:
         e.update(env)
-    r = subprocess.run([HARNESS_BIN] + args, stdout=subprocess.PIPE,
+    # the sub-command travels in VERIF_ARGS, the process arguments stay empty (see harness main.rs)
+    e["VERIF_ARGS"] = "\t".join(args)
+    r = subprocess.run([HARNESS_BIN], stdout=subprocess.PIPE,
                        stderr=subprocess.PIPE, text=True, timeout=timeout, env=e)
     if r.returncode != 0:
         raise ToolError(f"harness {' '.join(args[:1])} failed rc={r.returncode}:\n"
